@@ -1085,8 +1085,14 @@ def run(only=None):
     if want("crc32_front_end"):
         L = 96 if thorough else 40
         datas = byte_strings(L)
+        # the longest messages a transmission carries (and the octet counts around 2^8 and 2^16 / 2^15 word and octet indices)
+        for n_ in (255, 256, 257, 258, 300, 511, 512, 513, 1500, 1501, 2750, 2751):
+            for fill in (bytes(n_), b"\xff" * n_, env.det_bytes(f"c05-crc32-long-{n_}", n_), bytes(n_ - 1) + b"\x01", b"\x80" + bytes(n_ - 1),
+                         bytes(256) + b"\x01" + bytes(n_ - 257) if n_ > 257 else bytes(n_)):
+                if fill not in datas:
+                    datas.append(fill)
         s = rep.sub("crc32_front_end",
-                    f"CRC32.calculate / check: octet strings of every length 0..{L} (odd lengths included) x {{00.., ff.., every "
+                    f"CRC32.calculate / check: octet strings of every length 0..{L} (odd lengths included) and of 255..2751 octets (12 lengths) x {{00.., ff.., every "
                     "single-bit string, seed fill}}; check() over a fixed candidate alphabet per message (crc, 0, ffffffff, crc+-1, byte-swapped, inverted, 7 single-bit neighbours)")
         s.declared = len(datas)
         for acc in par.pmap(w_crc32, par.split_list(list(reversed(datas)), 128), nw):
